@@ -19,10 +19,14 @@ PIPES = {
     "C16": ["lines"],
     "C19": ["lines", "seqs"],
     "C20": ["regex"],
+    "C12": ["cut"],
+    "C13": ["group"],
+    "C14": ["session"],
+    "C15": ["rewrite"],
     "C17": ["render"],
     "C18": ["render"],
 }
-LEVEL = {"C17": "exploration", "C18": "exploration", "C16": "exploration", "C19": "exploration"}
+LEVEL = {"C17": "exploration", "C18": "exploration", "C16": "exploration", "C19": "exploration", "C15": "exploration"}
 
 
 def _pipe(name):
